@@ -16,7 +16,7 @@ VarILocs   == {l \in LiveILocs : l.root # "q"}
 Full       == {p \in SPaths : cur[p] # 0}
 
 Cand ==
-  \E act \in One(1..24), v \in One(OVars), w \in One(IVars), k \in One(Ks), root \in One(LiveORoots), loc \in One(LiveILocs),
+  \E act \in One(1..30), v \in One(OVars), w \in One(IVars), k \in One(Ks), root \in One(LiveORoots), loc \in One(LiveILocs),
      src \in One(LiveSrcI), s \in One(Sels), p \in One(SPaths), key \in One(DKeys), how \in One({"assignO", "idO"}) :
     CASE act = 1  -> NewO(v, k)
       [] act = 2  -> NewI(w, k)
@@ -35,6 +35,12 @@ Cand ==
       [] act = 22 -> RefO(v)
       [] act = 23 -> IF Full = {} THEN RefO(v) ELSE \E f \in One(Full) : Borrow(f)
       [] act = 24 -> IF VarILocs = {} THEN FALSE ELSE \E l \in One(VarILocs) : RefI(l)
+      \* mutations through the references, when they are set (otherwise: take one)
+      [] act = 25 -> IF OTarget("r") # 0 THEN SetP("r", k) ELSE RefO(v)
+      [] act \in {26, 27} -> IF OTarget("r") # 0 THEN (SetX(ILoc("r", s), k) \/ Push(ILoc("r", s), k)) ELSE RefO(v)
+      [] act = 28 -> IF OTarget("r") # 0 THEN WriteI("r", s, src) ELSE (IF Full = {} THEN RefO(v) ELSE \E f \in One(Full) : Borrow(f))
+      [] act \in {29, 30} -> IF ri # 0 THEN (SetX(ILoc("q", Direct), k) \/ Push(ILoc("q", Direct), k))
+                             ELSE (IF VarILocs = {} THEN FALSE ELSE \E l \in One(VarILocs) : RefI(l))
 
 \* always possible inside a transaction: set the payload of a variable to a different value
 Touch == \E v \in One(OVars) : \E k \in One(Ks \ {heap[ov[v]].p}) : SetP(v, k)
